@@ -5,6 +5,7 @@ import (
 	"os"
 	"os/signal"
 	"path/filepath"
+	"runtime/pprof"
 	"sort"
 	"strings"
 	"syscall"
@@ -14,6 +15,8 @@ import (
 
 	"verif/sim/core"
 	"verif/sim/kit"
+
+	"github.com/kardiachain/go-kardia/lib/log"
 )
 
 type engine struct{}
@@ -109,8 +112,40 @@ func drawCfg(t *core.Tape, opt core.Options) RunCfg {
 		c.Relabel = t.Chance(1, 4)
 		c.Garbage = t.Chance(1, 4)
 		c.NoisePct = []int{2, 5, 15}[t.Draw(3)]
+		c.EvForger = t.Chance(1, 4)
 	}
 	c.Filters = opt.Int("faults", 1) > 0 && t.Chance(1, 2)
+	// per-property emphasis (after all draws, so the tape layout is the same for every property)
+	switch opt.Property {
+	case "C18":
+		c.Garbage = true
+		if c.NoisePct < 15 {
+			c.NoisePct = 15
+		}
+	case "C11":
+		c.Forger = true
+		if c.NoisePct < 15 {
+			c.NoisePct = 15
+		}
+	case "C13":
+		c.Relabel = true
+		if c.NoisePct < 15 {
+			c.NoisePct = 15
+		}
+	case "C19":
+		c.EvForger = true
+		if c.NoisePct < 15 {
+			c.NoisePct = 15
+		}
+		// make sure somebody equivocates
+		if len(c.ByzStrat) > 0 {
+			c.ByzStrat[0] = "equivocate"
+		}
+	case "C01", "C03":
+		if c.NVal >= 4 && opt.Int("faults", 1) > 0 {
+			c.Filters = true
+		}
+	}
 	return c
 }
 
@@ -118,8 +153,13 @@ func (engine) Run(t *testing.T, tape *core.Tape, opt core.Options) (res *core.Ru
 	res = core.NewResult()
 	s := &Sim{t: t, tape: tape, res: res, opt: opt, h: core.NewHasher(), ah: core.NewHasher(),
 		until: map[string]time.Duration{}, retries: map[string]int{}, cut: map[[2]int]bool{},
-		blocks: map[string]*knownBlock{}, blocksByH: map[uint64][]*knownBlock{}, forged: map[string]string{}, bogusParts: map[int]int{}}
+		blocks: map[string]*knownBlock{}, blocksByH: map[uint64][]*knownBlock{}, forged: map[string]string{}, bogusParts: map[int]int{}, learnedSaved: map[int]int{}}
 	s.cfg = drawCfg(tape, opt)
+	if opt.Verbose && os.Getenv("VERIF_LOGS") != "" {
+		kit.LogSink = func(lvl log.Lvl, msg string, ctx []interface{}) {
+			fmt.Printf("      LOG[%v] %s %v\n", lvl, msg, ctx)
+		}
+	}
 	s.maxSteps = opt.Int("maxsteps", 60000)
 	s.wallStart = wallNow()
 	s.maxWall = time.Duration(opt.Int("maxwall", 60)) * time.Second
@@ -140,7 +180,8 @@ func (engine) Run(t *testing.T, tape *core.Tape, opt core.Options) (res *core.Ru
 		select {
 		case <-done:
 		case <-time.After(4 * s.maxWall):
-			fmt.Fprintf(os.Stderr, "WATCHDOG: run %d of engine netsim did not return within %v of wall time (simulated time not advancing?) config=%+v\n", opt.RunIndex, 4*s.maxWall, s.cfg)
+			fmt.Fprintf(os.Stderr, "WATCHDOG: run %d of engine netsim did not return within %v of wall time (simulated time not advancing?) replay=%v steps=%d config=%+v\n", opt.RunIndex, 4*s.maxWall, opt.Replay, s.steps, s.cfg)
+			_ = pprof.Lookup("goroutine").WriteTo(os.Stderr, 1)
 			os.Exit(3)
 		}
 	}()
@@ -273,13 +314,21 @@ func (s *Sim) phase2() {
 		}
 	}
 	s.trace("PHASE2 start, max height %d", maxH)
+	p2start := s.now()
 	goal := func() bool {
 		for _, n := range s.liveNodes() {
 			if s.heightOf(n) < maxH+3 {
 				return false
 			}
 		}
-		return true
+		// C19: evidence a correct node already held when the network started to behave must get committed.
+		// Heights are capped below 50: every 50th block the product fetches a blacklist over HTTP.
+		for _, n := range s.liveNodes() {
+			if s.heightOf(n) >= 44 {
+				return true
+			}
+		}
+		return len(s.mon.evidenceOutstanding(p2start)) == 0
 	}
 	// generous bound: 20 x rotation (<= number of validators x small power ratio) rounds of the longest round time
 	rounds := 20 * (s.cfg.NVal + 4)
@@ -293,6 +342,31 @@ func (s *Sim) phase2() {
 	}
 	if s.res.Inconclusive {
 		return
+	}
+	if out := s.mon.evidenceOutstanding(p2start); len(out) > 0 {
+		progressed := true
+		for _, n := range s.liveNodes() {
+			if s.heightOf(n) < maxH+3 {
+				progressed = false
+			}
+		}
+		if progressed && s.now()-p2start < 35*time.Second {
+			s.res.Probe("c19-height-cap-before-evidence-bound")
+			progressed = false
+		}
+		if progressed {
+			h := out[0]
+			holders := ""
+			for _, n := range s.liveNodes() {
+				if n.EvPool.VerifIsPending(s.mon.c19.evs[h]) {
+					holders += fmt.Sprint(n.ID, " ")
+				}
+			}
+			s.res.Violate("C19", "evidence-never-committed", "evidence of real double-signing held by a correct node is not committed within the bound although the chain progresses",
+				fmt.Sprintf("evidence %s (h%d) first pending at node %d at %.1fs; pending now at nodes [%s]; chain advanced %d+ heights in the synchronous suffix",
+					short(h), s.mon.c19.evs[h].Height(), s.mon.c19.holder[h], s.mon.c19.firstSeen[h].Seconds(), holders, 3))
+			return
+		}
 	}
 	if !goal() {
 		var st []string
